@@ -1,4 +1,5 @@
 import InfluxQL.Lemmas.Duration
+import InfluxQL.Lemmas.ScanNumber
 /-!
 # C08 — durations are parsed exactly or rejected; formatting is invertible
 
@@ -318,6 +319,54 @@ theorem parse_format (d : Int) (hmin : minInt64 < d) (hmax : d ≤ maxInt64) :
       have habs : (q.natAbs : Int) = q := Int.natAbs_of_nonneg (by omega)
       simp only [sign, compSum, habs]
       congr 1; simp; omega
+
+/-! ## Duration literals inside a query -/
+
+/-- Every suffix `FormatDuration` writes starts with a unit letter and continues with letters:
+the scanner keeps it in the same token as the digits. -/
+def suffixOK : List Char → Bool
+  | [] => false
+  | c :: tail => isDurChar c && tail.all isDurTailChar
+
+theorem gen_suffixes_are_duration_chars :
+    ∀ p ∈ formatLadder ++ [((1 : Int), formatFallbackSuffix)], suffixOK p.2 = true := by
+  decide
+
+/-- **C08 (literals in statements).** Wherever the scanner meets the text `FormatDuration` writes
+for a positive duration, followed by a character that cannot continue a duration, it produces ONE
+`DURATIONVAL` token whose literal `ParseDuration` maps back to exactly that duration. (A negative
+literal is a `-` token followed by this one; `parseUnaryExpr` negates the value.) -/
+theorem duration_literal_in_query (r : Cursor) (d : Int) (x : Char) (t : List Char)
+    (hpos : 0 < d) (hmax : d ≤ maxInt64)
+    (h : r.rest.map Prod.fst = formatDuration d ++ x :: t) (hx : isDurTailChar x = false) :
+    (scan r).1.tok = .DURATIONVAL ∧ parseDuration (scan r).1.lit = .ok d ∧
+      (scan r).2.rest.map Prod.fst = x :: t := by
+  obtain ⟨u, suffix, q, hmem, hdq, hfmt⟩ := format_shape d (by omega)
+  obtain ⟨hu, _⟩ := gen_ladder_entries_ok (u, suffix) hmem
+  have hok := gen_suffixes_are_duration_chars (u, suffix) hmem
+  simp only at hu hok
+  obtain ⟨c, tail, hsuf, hc, htail⟩ : ∃ c tail, suffix = c :: tail ∧ isDurChar c = true ∧ tail.all isDurTailChar = true := by
+    cases suffix with
+    | nil => simp [suffixOK] at hok
+    | cons c tail =>
+      simp only [suffixOK, Bool.and_eq_true] at hok
+      exact ⟨c, tail, rfl, hok.1, hok.2⟩
+  have hq : 0 < q := by
+    rcases Int.lt_trichotomy q 0 with hq | hq | hq
+    · exfalso
+      have : q * u < 0 := Int.mul_neg_of_neg_of_pos hq (by omega)
+      omega
+    · subst hq; simp at hdq; omega
+    · exact hq
+  have hdig : intDigits q = natDigits q.natAbs := by simp [intDigits, show ¬ q < 0 by omega]
+  have htext : formatDuration d = natDigits q.natAbs ++ c :: tail := by rw [hfmt, hdig, hsuf]
+  rw [htext] at h
+  have := scan_duration_token r (natDigits q.natAbs) tail c x t (by simpa using h)
+    (natDigits_ne_nil _) (natDigits_all_digits _) hc
+    (by simpa [List.all_eq_true] using htail) hx
+  refine ⟨this.1, ?_, this.2.2⟩
+  rw [this.2.1, ← htext]
+  exact parse_format d (by unfold minInt64; omega) hmax
 
 -- non-vacuity
 example : minInt64 < (-5400000000000 : Int) ∧ (-5400000000000 : Int) ≤ maxInt64 := by decide
